@@ -1,57 +1,63 @@
 import BufProofs.Lemmas.FilterLemmas
 import BufProofs.Lemmas.FilterRewriteLemmas
+import BufProofs.Lemmas.FilterOutputLemmas
+import BufProofs.Lemmas.FilterCommentLemmas
 /-
   C12 — Type filtering yields a self-contained, minimal, otherwise unchanged image.
   Model: BufModel/Filter.lean (closure = task machine `run`, rewrite = `remapFile`).
 
-  Proved here, for all images / filters / fuel of the model:
-    * filter_drops_excludes_partial   excluded names stay excluded through the whole closure and the
-                                      rewrite drops every declaration / field / extension / method that
-                                      is, or is typed by, an excluded element
-    * survivors_unchanged_partial     kept fields, extensions, enums, methods are the originals, in order
-    * remapSlice_items / remapSlice_index / comments_follow_elements
-                                      index arithmetic of remapSlice and the source-path remap of a list
-    * fuel_monotone                   the closure's answer does not depend on the fuel once it has one
-    * *_counterexample                the pre-fix behaviours (9a, 9b, 9f) and the four families that are
-                                      still as coded (recorded known findings)
-    * fuel_suffices / defaultFuel_suffices_partial / defaultFuel_insufficient_counterexample
-                                      a computable fuel bound that always suffices (termination potential);
-                                      `defaultFuel` suffices exactly when it dominates that bound, and does
-                                      NOT for e.g. a 300-value enum (model defect, see the counterexample)
-    * closure_closed                  THE WORKLIST INVARIANT of the traversal, formalised
-                                      (FilterClosure.run_closed) and lifted through all phases of `closure`
-    * filter_links_partial / filter_links_imports_partial
-                                      closure level: every reference of a visited element is visited or
-                                      excluded, its import is recorded, parents have modes; output level:
-                                      every needed import is listed in the rewritten dependency list
-    * filter_keeps_includes_partial / filter_keeps_includes
-                                      an included non-extension element ends `explicit`; an included
-                                      message / enum / service is PRESENT in the output of a successful
-                                      filter (well-formed index)
-    * comments_follow_messages / marks_stay_below
-                                      comments_follow_elements for message lists at any nesting depth
-  NOT proved (held by the correspondence on every run and judged by the implementation oracle):
-    `linksB out` itself (needs presence of every referenced element — proved here only for includes —
-    plus the hypotheses excluding the three known-finding families), filter_minimal,
-    filter_idempotent (not statable: the model has no OFile → Image), filter_total (needs a
-    "every task on the stack resolves" invariant), the message-level part of survivors_unchanged.
-    See handoff/C12-proofs.md.
+  OUTPUT-LEVEL theorems (about what `filterWith cfgFixed` — the function the driver runs — returns):
+    * filter_drops_excludes           no name an exclude removes (the element, its indexed descendants;
+                                      for a package every element of its files) is declared in the
+                                      output, none is the type of a kept field / extension nor the
+                                      request / response type of a kept method; none is the extendee of
+                                      a kept extension when the filter has an include or the image has
+                                      no import file (the hypothesis that excludes known finding 9e)
+    * filter_keeps_includes           an included message / enum / service is present (input condition:
+                                      unique ids only — the structural part of `WFIdx` is now PROVED for
+                                      every `buildIndex` output: `buildIndex_wf`)
+    * filter_links_partial            every type / extendee / request / response reference of the output
+                                      resolves to an element declared in the output, in the same file or
+                                      in a file the referring file lists as dependency (include filters,
+                                      or images without import files; oneof / map-entry / extension-range
+                                      clauses of `linksB` not covered)
+    * comments_follow_file_partial    source locations, FILE level (`remapLocs` over the merged marks of
+                                      the whole file): messages at any nesting depth — kept ones move to
+                                      the path with the new indexes, everything at or below a dropped
+                                      one is deleted (non-interference of siblings / sections / levels)
+    * fuel_suffices / driver_fuel_suffices
+  CLOSURE-LEVEL and MODEL-SANITY lemmas (kept, labelled as such):
+    * filter_drops_excludes_closure_partial, filter_links_closure_partial, filter_links_imports_partial,
+      filter_keeps_includes_closure_partial, closure_closed (the worklist invariant)
+    * rewrite_drops_*, remapX_unchanged, survivors_unchanged_partial, remapSlice_items/_index: these
+      restate the definition of `remapX` / `remapSlice` (true by construction); their weight is on the
+      correspondence leg
+    * comments_follow_elements_partial / comments_follow_messages_partial / marks_stay_below: ONE slice's
+      own marks (superseded for messages by comments_follow_file_partial)
+    * *_counterexample                the pre-fix behaviours (9a, 9b, 9f), the as-coded families that are
+                                      recorded known findings, the model's too small `defaultFuel`
+  NOT proved (correspondence + implementation oracle only): the oneof / map-entry / extension-range
+    clauses of `linksB`, filter_minimal, filter_total, filter_idempotent (not statable: no
+    OFile → Image), message-level survivors_unchanged.  See handoff/C12-proofs2.md.
 -/
 namespace BufProofs.C12
 open BufModel.Filter BufProofs.FilterLemmas BufProofs.FilterClosure BufProofs.FilterRewrite
+open BufProofs.FilterIndex BufProofs.FilterOutput BufProofs.FilterComment
 
 /-! ### excludes -/
 
-/-- An element named by an exclude is `excluded` in the final closure — through includes, the
-    include-everything default and addExtensions — and `hasType` is false for it. -/
-theorem filter_drops_excludes_partial (cfg : Cfg) (img : Image) (o : Opts) (fuel : Nat) (st : St)
+/-- CLOSURE level only (any cfg, including the pre-fix `cfgOld`, so this cannot by itself imply the
+    output clause — see `filter_drops_excludes` for that): an element named by an exclude is
+    `excluded` in the final closure — through includes, the include-everything default and
+    addExtensions — and `hasType` is false for it. -/
+theorem filter_drops_excludes_closure_partial (cfg : Cfg) (img : Image) (o : Opts) (fuel : Nat) (st : St)
     (h : closure cfg img o fuel = .ok st) (n : Id) (hn : n ∈ o.excludes) (i : Info)
     (hi : (buildIndex img).find (.el n) = some i) :
     st.get (.el n) = some .excluded ∧ ∀ noInc, hasType st noInc (.el n) = false := by
   have e := closure_excluded cfg img o fuel st h n hn i hi
   exact ⟨e, fun _ => by unfold hasType; rw [e]⟩
 
-/-- The rewrite drops a message whose id is not `hasType`. -/
+/-- Model sanity (restates `remapMsg`): the rewrite drops a message whose id is not `hasType`. -/
 theorem rewrite_drops_message (c : RCtx) (path : List Nat) (m : Msg) (h : c.has (.el m.id) = false) :
     (remapMsg c path m).1 = none := by
   cases m with
@@ -60,8 +66,9 @@ theorem rewrite_drops_message (c : RCtx) (path : List Nat) (m : Msg) (h : c.has 
     simp only [Msg.id] at h
     simp [h]
 
-/-- … and an enum, a service, a method, an extension with such an id; and every field or extension
-    whose type, and (after the fix of 9b) every method whose request or response type, is not kept. -/
+/-- Model sanity (restate `remapEnum/Service/Method/Field`): … and an enum, a service, a method, an
+    extension with such an id; and every field or extension whose type, and (after the fix of 9b)
+    every method whose request or response type, is not kept. -/
 theorem rewrite_drops_enum (c : RCtx) (p : List Nat) (e : Enum) (h : c.has (.el e.id) = false) :
     (remapEnum c p e).1 = none := by unfold remapEnum; simp [h]
 
@@ -116,8 +123,10 @@ theorem remapSlice_items {α β} (path : List Nat) (f : List Nat → α → Opti
   BufProofs.FilterLemmas.remapSlice_items path f xs fr to
 
 /-- … so kept fields, extensions, enums and methods are the original descriptors, unchanged and in
-    order (`Sublist`).  Partial: the statement for messages (nested declarations filtered
-    recursively, namespace-only messages cleared) is not proved here. -/
+    order (`Sublist`).  True by construction of `remapX` (they only keep or drop); the protocol
+    renders ids only, so "otherwise unchanged" rests on the Go oracle.  Partial: the statement for
+    messages (nested declarations filtered recursively, namespace-only messages cleared) is not
+    proved here. -/
 theorem survivors_unchanged_partial (c : RCtx) (path : List Nat) (fs : List Field) (es : List Enum) (ms : List Method) :
     (remapSlice path (remapField c) fs 0 0).1.Sublist fs ∧
     (remapSlice path (remapEnum c) es 0 0).1.Sublist es ∧
@@ -141,8 +150,11 @@ theorem remapSlice_index (path : List Nat) (bs : List Bool) (i : Nat) (hi : i < 
 
 /-- For a list of declarations without nested marks (fields, extensions, enums, methods, oneofs,
     dependencies): the source location `path ++ [i]` of element `i` is deleted exactly when the
-    element is dropped and otherwise becomes `path ++ [newIdx i]` with its comments kept. -/
-theorem comments_follow_elements {α β} (path : List Nat) (f : List Nat → α → Option β × Marks)
+    element is dropped and otherwise becomes `path ++ [newIdx i]` with its comments kept.
+    Partial: SLICE level — the marks are those of this one slice and `fixPath` starts at the slice's
+    own node; `hleaf` fails for service lists.  The file-level statement (merged marks of the whole
+    file, walk from the root) is `comments_follow_file_partial` (messages only). -/
+theorem comments_follow_elements_partial {α β} (path : List Nat) (f : List Nat → α → Option β × Marks)
     (hleaf : ∀ p x, (f p x).2 = []) (xs : List α) (i : Nat) (hi : i < (flagsFrom path f xs 0).length) :
     fixPath (remapSlice path f xs 0 0).2 path [i] =
       if (flagsFrom path f xs 0)[i] = false then none
@@ -252,12 +264,12 @@ theorem filter_links_unvisited_import_counterexample :
 example : linksOf (filter imgImport { includes := [11], excludes := [] }) = some true ∧
     idsOf (filter imgImport { includes := [11], excludes := [] }) = some [(2, [21]), (1, [11])] := by decide
 
--- non-vacuity of filter_drops_excludes_partial: the closure succeeds, the excluded name is indexed
+-- non-vacuity of filter_drops_excludes_closure_partial: the closure succeeds, the excluded name is indexed
 example : (match closure cfgFixed imgRpc { includes := [], excludes := [11] } (defaultFuel imgRpc) with
     | .ok st => some (st.get (.el 11)) | .error _ => none) = some (some .excluded) ∧
     ((buildIndex imgRpc).find (.el 11)).isSome = true := by decide
 
--- non-vacuity of comments_follow_elements / remapSlice_index: drop two adjacent elements
+-- non-vacuity of comments_follow_elements_partial / remapSlice_index: drop two adjacent elements
 example : fixPath (sliceMarks [4] [true, false, false, true] 0 0) [4] [3] = some ([1], false) ∧
     fixPath (sliceMarks [4] [true, false, false, true] 0 0) [4] [2] = none := by decide
 
@@ -325,7 +337,7 @@ theorem closure_closed (cfg : Cfg) (hcfg : cfg.svcMarksInput = false) (img : Ima
     No hypothesis on the image or the filter is needed at this level: the three known-finding
     families break `linksB` only in the rewrite (map entry loses its value field, oneof indexes
     are not renumbered) or through `hasType` of *unvisited* keys in exclude-only filters. -/
-theorem filter_links_partial (cfg : Cfg) (hcfg : cfg.svcMarksInput = false) (img : Image) (o : Opts) (fuel : Nat)
+theorem filter_links_closure_partial (cfg : Cfg) (hcfg : cfg.svcMarksInput = false) (img : Image) (o : Opts) (fuel : Nat)
     (st : St) (h : closure cfg img o fuel = .ok st) (k : Key) (i : Info)
     (hi : (buildIndex img).find k = some i) :
     let c : Ctx := ⟨cfg, buildIndex img, o.customOpts⟩
@@ -376,7 +388,7 @@ theorem filter_links_imports_partial (img : Image) (o : Opts) (fuel : Nat) (st :
     it.file = of.id ∨ it.file ∈ of.deps := by
   obtain ⟨f0, _, hr⟩ := rewrite_origin cfgFixed rfl st _ img out hrw of hof
   obtain ⟨hid, hdeps⟩ := remapFile_deps _ f0 of hr
-  have hl := (filter_links_partial cfgFixed rfl img o fuel st hcl k i hi).2 h2 h3
+  have hl := (filter_links_closure_partial cfgFixed rfl img o fuel st hcl k i hi).2 h2 h3
   rcases hl.2.1 hk f hf t ht with h4 | hp
   · exact absurd h4 hne
   · obtain ⟨_, h4 | he⟩ := hp it hit
@@ -395,28 +407,44 @@ theorem filter_links_imports_partial (img : Image) (o : Opts) (fuel : Nat) (st :
     includes, the include-everything default and addExtensions never demote it.  (Extensions are
     excepted as coded: an included extension whose value type is excluded is silently dropped —
     known finding `included-extension-silently-dropped`.) -/
-theorem filter_keeps_includes_partial (cfg : Cfg) (hcfg : cfg.svcMarksInput = false) (img : Image) (o : Opts)
+theorem filter_keeps_includes_closure_partial (cfg : Cfg) (hcfg : cfg.svcMarksInput = false) (img : Image) (o : Opts)
     (fuel : Nat) (st : St) (h : closure cfg img o fuel = .ok st) (n : Id) (hn : n ∈ o.includes)
     (i : Info) (hi : (buildIndex img).find (.el n) = some i) (hne : i.fld = none) :
     st.get (.el n) = some .explicit :=
   closure_keeps_includes cfg hcfg img o fuel st h n hn i hi hne
 
+/-- **The structural part of `WFIdx` is a theorem**: for every image whose index has unique keys
+    (`UniqIdx`: no two indexed elements share an id — the one genuine input condition; implied by
+    `Nodup` of the key list, `buildIndex_wf_of_nodup`) the index `buildIndex` builds is well-formed:
+    parent pointers never name a oneof key nor an extension, and descendant lists are closed under
+    children. -/
+theorem buildIndex_wf (img : Image) (hu : UniqIdx (buildIndex img)) : WFIdx (buildIndex img) :=
+  wfIdx_of_uniq img hu
+
+theorem buildIndex_wf_of_nodup (img : Image) (h : ((buildIndex img).map (·.key)).Nodup) :
+    WFIdx (buildIndex img) := wfIdx_of_nodup img h
+
+-- non-vacuity of buildIndex_wf / buildIndex_wf_of_nodup: the index of a three-file image with imports has
+-- unique keys (both forms of the hypothesis), and the proved `WFIdx` agrees with the executable check
+example : ((buildIndex imgImport).map (·.key)).Nodup ∧ uniqIdxB (buildIndex imgImport) = true ∧
+    wfIdxB (buildIndex imgImport) = true := by decide
+
 /-- **filter_keeps_includes** (output level, messages / enums / services): if the filter of the
-    current code succeeds on an image whose index is well-formed (`WFIdx`: no two indexed elements
-    share an id; decidable, see `wfIdxB`), every include that names a message, an enum or a service
-    is present in the output, in the output file with the id of its own file.  Any filter: other
-    includes, excludes (an exclude of the element or of an ancestor makes the filter fail with
-    `conflict` instead), option flags; any fuel.  Methods and packages are not covered here. -/
+    current code succeeds on an image with unique ids (`UniqIdx`, decidable: `uniqIdxB`), every
+    include that names a message, an enum or a service is present in the output, in the output file
+    with the id of its own file.  Any filter: other includes, excludes (an exclude of the element or
+    of an ancestor makes the filter fail with `conflict` instead), option flags; any fuel.  Methods
+    and packages are not covered here. -/
 theorem filter_keeps_includes (img : Image) (o : Opts) (fuel : Nat) (out : List OFile)
-    (h : filterWith cfgFixed img o fuel = .ok out) (hwf : WFIdx (buildIndex img))
+    (h : filterWith cfgFixed img o fuel = .ok out) (hu : UniqIdx (buildIndex img))
     (n : Id) (hn : n ∈ o.includes) (i : Info) (hi : (buildIndex img).find (.el n) = some i)
     (hkind : i.kind = .msg ∨ i.kind = .enum ∨ i.kind = .svc) (hfld : i.fld = none) :
     ∃ of ∈ out, of.id = i.file ∧ n ∈ (presentFile of).map (·.id) :=
-  filterWith_keeps_include img o fuel out h hwf n hn i hi hfld
+  filterWith_keeps_include img o fuel out h (wfIdx_of_uniq img hu) n hn i hi hfld
     (by rcases hkind with h | h | h <;> rw [h] <;> simp) (by rcases hkind with h | h | h <;> rw [h] <;> simp)
 
 -- non-vacuity: the hypotheses hold for imgImport with include A(11) and the filter succeeds
-example : wfIdxB (buildIndex imgImport) = true ∧
+example : uniqIdxB (buildIndex imgImport) = true ∧
     (((buildIndex imgImport).find (.el 11)).map (fun i => (i.kind, i.fld))) = some (.msg, none) ∧
     idsOf (filter imgImport { includes := [11], excludes := [12] }) = some [(2, [21]), (1, [11])] := by decide
 
@@ -432,8 +460,10 @@ example : (match filter imgImport { includes := [11], excludes := [] } with
     is deleted exactly when the message is dropped (`msgFlags` = `has` of its id) and otherwise
     becomes `path ++ [newIdx i]` (the number of kept messages before it); its comments are blanked
     exactly when the trie has a `noComment` mark there (namespace-only message that was cleared).
-    Any two adjacent dropped messages, dropped prefixes/suffixes, arbitrary nesting below. -/
-theorem comments_follow_messages (c : RCtx) (path : List Nat) (ms : List Msg) (i : Nat)
+    Any two adjacent dropped messages, dropped prefixes/suffixes, arbitrary nesting below.
+    Partial: one message list's own marks, `fixPath` started at the list node; the file-level
+    statement is `comments_follow_file_partial`. -/
+theorem comments_follow_messages_partial (c : RCtx) (path : List Nat) (ms : List Msg) (i : Nat)
     (hi : i < (msgFlags c ms).length) :
     fixPath (remapMsgs c path ms 0 0).2 path [i] =
       if (msgFlags c ms)[i] = false then none
@@ -451,6 +481,162 @@ example :
     let ms := [m0 13, Msg.mk 14 [] [] [] [m0 15] [] [] false false []]
     fixPath (remapMsgs c [4, 0, 3] ms 0 0).2 [4, 0, 3] [1] = some ([0], false) ∧
     fixPath (remapMsgs c [4, 0, 3] ms 0 0).2 [4, 0, 3] [0] = none ∧ msgFlags c ms = [false, true] := by decide
+
+/-! ### excludes, at the level of the function the driver runs -/
+
+/-- **filter_drops_excludes** (output of `filterWith cfgFixed`, the function the driver runs).
+    Let `x` be a name an exclude removes (`ExclKey`: the excluded element itself or one of its indexed
+    descendants — nested messages, enums, extensions, methods —; for an excluded package, every
+    element of its files).  If the filter succeeds, then in every output file
+      * `x` is not declared (`outIds`: messages, enums, services, methods, extensions at any depth),
+      * `x` is not the type of a kept field or extension (at any depth) nor the request / response
+        type of a kept method (`typeRefs`),
+      * `x` is not the extendee of a kept extension (`extendeeRefs`) — provided the filter has an
+        include or the image has no import file and `FileTypes` lists every declared element
+        (`NoImportCover`).  This is exactly the hypothesis that excludes known finding 9e
+        (`exclude-only-import-file-not-closed`: an exclude-only filter keeps UNVISITED extensions of
+        import files, whose extendee may be excluded).  The map-value family (9c) breaks linking, not
+        this clause: a map entry that loses its value field refers to nothing excluded.
+    Input conditions (decidable, `uniqIdxB` / `wfRefsB`): ids are unique; every extension names an
+    extendee that is not itself an extension; ordinary fields carry no extendee.  Any fuel, any
+    option flags. -/
+theorem filter_drops_excludes (img : Image) (o : Opts) (fuel : Nat) (out : List OFile)
+    (h : filterWith cfgFixed img o fuel = .ok out) (hu : UniqIdx (buildIndex img)) (hr : WFRefs (buildIndex img))
+    (x : Id) (hx : ExclKey img o (.el x)) (of : OFile) (hof : of ∈ out) :
+    x ∉ outIds of ∧ x ∉ typeRefs of ∧ ((o.includes ≠ [] ∨ NoImportCover img) → x ∉ extendeeRefs of) :=
+  filterWith_drops_excludes img o fuel out h hu hr x hx of hof
+
+/-- file 1 (target): `message X`(11) { extensions; message XN (12) }; `message Y`(13) { X x (31); XN n (32);
+    int32 k (33) }; `extend X { Y e1 (14) }`; `service S`(15) { rpc A(X) returns (Y) (16); rpc B(Y) returns (Y) (17) };
+    `message Z`(18). -/
+def imgExt : Image :=
+  { files := [
+      { id := 1, pkg := 10, isImport := false, deps := [], types := [11, 12, 13, 14, 15, 16, 17, 18],
+        msgs := [.mk 11 [] [] [] [m0 12] [] [[]] false false [],
+                 m0 13 [fld 31 (some 11), fld 32 (some 12), fld 33], m0 18],
+        enums := [], svcs := [⟨15, [⟨16, 11, 13, []⟩, ⟨17, 13, 13, []⟩], []⟩],
+        exts := [⟨14, some 13, none, some 11, []⟩], opts := [], locs := [] }],
+    pkgs := [0, 10] }
+
+-- non-vacuity of filter_drops_excludes, ALL hypotheses, exclude-only filter: excluding X removes X and
+-- its nested XN, the two fields typed by them, the extension of X and the method taking X
+example : idsOf (filter imgExt { includes := [], excludes := [11] }) = some [(1, [13, 18, 15, 17])] ∧
+    idsOf (filter imgExt { includes := [], excludes := [] }) = some [(1, [11, 12, 13, 18, 15, 16, 17, 14])] := by
+  decide
+
+example : ∀ out, filterWith cfgFixed imgExt { includes := [], excludes := [11] } (defaultFuel imgExt) = .ok out →
+    ∀ of ∈ out, 12 ∉ outIds of ∧ 12 ∉ typeRefs of ∧ 11 ∉ extendeeRefs of := by
+  intro out h of hof
+  have hu := uniqIdx_of_B (buildIndex imgExt) (by decide)
+  have hr := wfRefs_of_B (buildIndex imgExt) (by decide)
+  have a := filter_drops_excludes imgExt _ _ out h hu hr 12 (exclKey_of_B _ _ _ (by decide)) of hof
+  have b := filter_drops_excludes imgExt _ _ out h hu hr 11 (exclKey_of_B _ _ _ (by decide)) of hof
+  exact ⟨a.1, a.2.1, b.2.2 (Or.inr (noImportCover_of_B imgExt (by decide)))⟩
+
+-- … and with an include filter (first disjunct of the mode hypothesis)
+example : idsOf (filter imgExt { includes := [15, 14], excludes := [12] }) = some [(1, [11, 13, 15, 16, 17, 14])] ∧
+    uniqIdxB (buildIndex imgExt) = true ∧ wfRefsB (buildIndex imgExt) = true ∧
+    exclKeyB imgExt { includes := [15, 14], excludes := [12] } (.el 12) = true := by decide
+
+/-! ### links, at the level of the function the driver runs -/
+
+/-- **filter_links, output level** (partial: the reference clauses of `linksB`).  If the filter of
+    the current code succeeds, then for every output file `of` and every reference `t` it contains —
+    the type of a kept field or extension at any depth, the request / response type of a kept
+    method (`typeRefs`), the extendee of a kept extension (`extendeeRefs`) — there is an output file
+    `of'` that DECLARES `t` (`outIds`), and `of'` is `of` itself or is listed in `of.deps`.
+    Hypotheses: unique ids (`UniqIdx`); extensions name non-extension extendees, ordinary fields
+    have none (`WFRefs`); every reference of the INPUT image resolves to an indexed message / enum
+    (`RefsResolve`, the props.py assumption "images are well-formed"); and the mode hypothesis that
+    excludes known finding 9e: the filter has an include, or the image has no import file and
+    `FileTypes` lists every declared element (`NoImportCover`).  All four are decidable
+    (`uniqIdxB`, `wfRefsB`, `refsResolveB`, `noImportCoverB`).
+    Not covered (the other clauses of `linksB`, false as coded on the recorded families 9c / 9d):
+    a map entry keeps two fields, oneof indexes stay valid and oneofs non-empty, an extendee keeps
+    its extension ranges; and that every listed dependency is itself in the output (enforced by
+    `rewrite`'s `internal` check, not restated here). -/
+theorem filter_links_partial (img : Image) (o : Opts) (fuel : Nat) (out : List OFile)
+    (h : filterWith cfgFixed img o fuel = .ok out) (hu : UniqIdx (buildIndex img)) (hr : WFRefs (buildIndex img))
+    (hres : RefsResolve (buildIndex img)) (hmode : o.includes ≠ [] ∨ NoImportCover img)
+    (of : OFile) (hof : of ∈ out) (t : Id) (ht : t ∈ typeRefs of ∨ t ∈ extendeeRefs of) :
+    ∃ of' ∈ out, t ∈ outIds of' ∧ (of'.id = of.id ∨ of'.id ∈ of.deps) :=
+  filterWith_refs_resolve img o fuel out h hu hr hres hmode of hof t ht
+
+-- non-vacuity, include filter over an image WITH import files: A{ D1 x } pulls D1 from file 2
+example : uniqIdxB (buildIndex imgImport) = true ∧ wfRefsB (buildIndex imgImport) = true ∧
+    refsResolveB (buildIndex imgImport) = true ∧
+    (match filter imgImport { includes := [11], excludes := [] } with
+      | .ok o => some (o.map fun f => (f.id, f.deps, outIds f, typeRefs f)) | .error _ => none) =
+      some [(2, [], [21], []), (1, [2], [11], [21])] := by decide
+
+-- non-vacuity, exclude-only filter over an image without import files (second disjunct), with an
+-- extension, a service and nested messages: every reference of the output resolves in the output
+example : uniqIdxB (buildIndex imgExt) = true ∧ wfRefsB (buildIndex imgExt) = true ∧
+    refsResolveB (buildIndex imgExt) = true ∧ noImportCoverB imgExt = true ∧
+    (match filter imgExt { includes := [], excludes := [18] } with
+      | .ok o => some (o.map fun f => (outIds f, typeRefs f, extendeeRefs f)) | .error _ => none) =
+      some [([11, 12, 13, 15, 16, 17, 14], [11, 12, 13, 11, 13, 13, 13], [11])] := by decide
+
+/-! ### source locations at file level -/
+
+/-- **comments follow their elements, FILE level** (partial: messages).  `remapFile` remaps every
+    location of the file with `newPath` over the MERGED marks of all sections and nesting levels
+    (`fileMarks`).  For every message `m` reached from the top-level list through kept messages
+    (`MsgAt`: old path `4 :: p`, e.g. `[4, i, 3, j, 3, k]`; `p'` = the same path with every index
+    replaced by the number of kept siblings before it):
+      * the location of `m` is mapped to `4 :: p'` (comments blanked iff the trie holds a `noComment`
+        there), and every input location with that path appears in the output with the new path;
+      * every location below `m` is mapped by continuing the walk below `m` and prefixing `4 :: p'`
+        (`cont`) — so marks of siblings, of other sections of the file and of other nesting levels
+        never interfere;
+      * every location at or below a dropped nested message of `m`, and at or below a dropped
+        top-level message, is deleted.
+    Gap (hence `_partial`): the leaf children of a message (fields, enums, oneofs, extensions: slice
+    level only, `comments_follow_elements_partial`), top-level enums / extensions, services and
+    methods, dependency paths; the converse "only those are deleted" is not stated. -/
+theorem comments_follow_file_partial (c : RCtx) (f : File) (of : OFile) (hof : remapFile c f = some of) :
+    of.locs = remapLocs (fileMarks c f) f.locs ∧
+    (∀ p p' m, MsgAt c f.msgs p p' m →
+      newPath (fileMarks c f) (4 :: p) = some (4 :: p', noCommentAt (fileMarks c f) (4 :: p)) ∧
+      (∀ l ∈ f.locs, l.path = 4 :: p →
+        (⟨4 :: p', if noCommentAt (fileMarks c f) (4 :: p) then 0 else l.tag⟩ : Loc) ∈ of.locs) ∧
+      (∀ rest, newPath (fileMarks c f) (4 :: p ++ rest) = cont (fileMarks c f) (4 :: p) rest (4 :: p')) ∧
+      (∀ i (hi : i < m.nested.length), c.has (.el m.nested[i].id) = false →
+        ∀ rest, newPath (fileMarks c f) (4 :: p ++ 3 :: i :: rest) = none)) ∧
+    (∀ i (hi : i < f.msgs.length), c.has (.el f.msgs[i].id) = false →
+      ∀ rest, newPath (fileMarks c f) (4 :: i :: rest) = none) := by
+  have hl := remapFile_locs c f of hof
+  refine ⟨hl, ?_, fun i hi hk rest => newPath_dropped_top c f i hi hk rest⟩
+  intro p p' m hm
+  have h0 : newPath (fileMarks c f) (4 :: p) = some (4 :: p', noCommentAt (fileMarks c f) (4 :: p)) := by
+    have := newPath_msgAt c f p p' m hm []
+    simpa [cont] using this
+  refine ⟨h0, ?_, fun rest => newPath_msgAt c f p p' m hm rest,
+    fun i hi hk rest => newPath_dropped_nested c f p p' m hm i hi hk rest⟩
+  intro l hlm hp
+  rw [hl]
+  unfold remapLocs
+  rw [List.mem_filterMap]
+  exact ⟨l, hlm, by rw [hp, h0]⟩
+
+/-- top level [G(10), A(11)]; A nests [B(12), C(13)]; C nests [D(14), E(15)]; G, B, D are dropped. -/
+def msgC : Msg := .mk 13 [] [] [] [m0 14, m0 15] [] [] false false []
+def msgA : Msg := .mk 11 [] [] [] [m0 12, msgC] [] [] false false []
+def fileNest : File :=
+  { id := 1, pkg := 10, isImport := false, deps := [], types := [10, 11, 12, 13, 14, 15],
+    msgs := [m0 10, msgA],
+    enums := [], svcs := [], exts := [], opts := [],
+    locs := [⟨[4, 1, 3, 1, 3, 1], 7⟩, ⟨[4, 1, 3, 1, 3, 0, 1], 8⟩, ⟨[4, 1, 3, 1, 3, 1, 1], 9⟩] }
+
+def cNest : RCtx := ⟨{ modes := [(.file 1, .explicit), (.el 11, .enclosing), (.el 13, .enclosing), (.el 15, .explicit)] }, false, true⟩
+
+-- non-vacuity of comments_follow_file_partial: E(15) sits at [4,1,3,1,3,1]; all three index levels shift
+example : MsgAt cNest fileNest.msgs [1, 3, 1, 3, 1] [0, 3, 0, 3, 0] (m0 15) :=
+  MsgAt.nest [1, 3, 1] [0, 3, 0] msgC
+    (MsgAt.nest [1] [0] msgA (MsgAt.top (c := cNest) (ms := fileNest.msgs) 1 (by decide) (by decide)) 1 (by decide) (by decide))
+    1 (by decide) (by decide)
+
+example : (remapFile cNest fileNest).map (·.locs) = some [⟨[4, 0, 3, 0, 3, 0], 7⟩, ⟨[4, 0, 3, 0, 3, 0, 1], 9⟩] := by decide
 
 /-- The fuel the correspondence driver actually runs with, `max (defaultFuel img) (fuelBound img)`,
     is never exhausted (repair of the model defect recorded by
